@@ -13,8 +13,8 @@ Verdicts (`bad:` = the implementation's own output violates the specification):
 * `bad:assumption-<which>`     a real search produced statistics outside the theorems' hypotheses
 * `bad:score-range`, `bad:idf-not-positive`, `bad:law-<which>`  the BM25 laws on the implementation's numbers
 * `bad:parts:…`                the explanation of a hit is not the sum/boost structure of the query's matching clauses
-A `bad` verdict is only printed when model and implementation agree on the line (otherwise the disagreement itself is
-the report and must not be hidden behind a known finding). -/
+The known idf-node verdict is only printed when model and implementation agree on the line (otherwise the disagreement
+itself is the report and must not be hidden behind a known finding). -/
 open Bluge Bluge.BM25 BlugeGen.C17
 
 abbrev F := Float
@@ -356,9 +356,12 @@ partial def implSk (inst : ScoreField F) (t : Expl F) : Option Sk :=
 
 /-! ## the ops -/
 
+/-- `agree`: model result = implementation result. When they differ and the only failure is the (known) idf node, the
+verdict stays `ok` so that the disagreement is reported and cannot hide behind the known finding; any other failure
+is a concrete violation of the specification by the implementation's own output and is reported as such. -/
 def verdictOf (agree : Bool) (fails : List String) (brs : List String) : String :=
   let br := if brs.isEmpty then "" else " br=" ++ ",".intercalate brs
-  (if fails.isEmpty || !agree then "ok" else "bad:" ++ "+".intercalate fails) ++ br
+  (if fails.isEmpty || (!agree && fails == ["explain-node:idf"]) then "ok" else "bad:" ++ "+".intercalate fails) ++ br
 
 /-- group the failing node kinds: `explain-node:idf+tf` -/
 def nodeFail (ks : List String) : List String :=
